@@ -3,6 +3,7 @@
 // Entries (all judged by the validator wf() of wf.go, written from the statement):
 //
 //	TestProps/basm_sources    .basm sources with operands at the powers of two, all CLI switch sets, in process
+//	                          (Harvard processors and hybrid ones with ROM + RAM code)
 //	TestProps/basm_fragments  fragment graphs x partitions (harness/c06's case type), in process
 //	TestProps/neuralbond      layered nets -> neuralbond -> basm (+ neuron library), in process
 //	TestProps/bmqsim          circuits -> bmqsim -save-basm flavours -> basm, in process
@@ -704,7 +705,7 @@ func propUnfit(c UnfitCase) pbt.Outcome {
 
 var Props = []*pbt.Entry{
 	pbt.Def("basm_sources",
-		"1..3 processors (now and then two on one section), one .romtext section each, optional .romdata/.ramdata sections, romsize:/ramsize: overrides >= the need, an optional queue + stack attached as shared objects, register size 8/16/32 (rarely 12/24/64), switch sets default/nodyn/minword/minsame; per processor a top register r(2^k-1|2^k|2^k+1), k=1..5 (rarely r127/r128/r255/r256) mentioned at ONE operand position of one of 69 instruction forms, input/output port sets with a power-of-two top index and gaps, literals 2^Rsize-1 and 31/32/63/64/127/128, ROM length (or code+data) 2^k-1|2^k|2^k+1 (k=2..6), a jump to the last address, static RAM addresses at the last cell, ROM/RAM data symbols; ports wired between processors / to the machine / left unattached; oracle wf() with the per-processor mentions recorded by the generator (register, ports, jump, RAM address, instruction and data counts, overrides, bond and shared-object counts); the sources fit by construction: a refusal that says the inferred architecture does not hold the program (unknown register/port, operand out of range, no assemblable alternative) is a violation, any other refusal a label; non-trivial = accepted and some index or length of the source is 2^k-1, 2^k or 2^k+1; distinct = distinct case JSON",
+		"1..3 processors (now and then two on one section), one .romtext section each, optional .romdata/.ramdata sections, romsize:/ramsize: overrides >= the need, an optional queue + stack attached as shared objects, one processor in five hybrid (cpdef romcode: S, ramcode: S_ram, execmode: hy; the .ramtext section of 2..17 explicit instructions shares j/jz/rset/… with the ROM code, uses sub/div/cmpr/… of its own and may name a higher register or port than the ROM code: judged are the opcode list = sorted duplicate-free union holding every opcode of the RAM code, R/N/M/2^L holding what the RAM code names, the mode; the machine JSON carries the ROM words only, RAM images travel in the BCOF file), register size 8/16/32 (rarely 12/24/64), switch sets default/nodyn/minword/minsame; per processor a top register r(2^k-1|2^k|2^k+1), k=1..5 (rarely r127/r128/r255/r256) mentioned at ONE operand position of one of 69 instruction forms, input/output port sets with a power-of-two top index and gaps, literals 2^Rsize-1 and 31/32/63/64/127/128, ROM length (or code+data) 2^k-1|2^k|2^k+1 (k=2..6), a jump to the last address, static RAM addresses at the last cell, ROM/RAM data symbols; ports wired between processors / to the machine / left unattached; oracle wf() with the per-processor mentions recorded by the generator (register, ports, jump, RAM address, instruction and data counts, overrides, bond and shared-object counts); the sources fit by construction: a refusal that says the inferred architecture does not hold the program (unknown register/port, operand out of range, no assemblable alternative) is a violation, any other refusal a label; non-trivial = accepted and some index or length of the source is 2^k-1, 2^k or 2^k+1; distinct = distinct case JSON",
 		genBasm, propBasm),
 	pbt.Def("basm_fragments",
 		"harness/c06 fragment graphs (1..9 instances of 1..4 fragments, register names from {r0..r16}, bodies of 0..9 instructions) x partitions (coarsest, a random one, the finest for <= 5 instances), default switches; oracle wf() + processor/IO counts of the graph + every processor has exactly the ports the partition gives it + the composed program is not refused for lack of registers/ports/ROM; non-trivial = an accepted partition whose machine has a ROM length, register, port index or opcode count at 2^k-1|2^k|2^k+1",
